@@ -103,7 +103,8 @@ def draw_config(rng, wl, tier):
         cfg["override"] = ov
         cfg["num_procs"] = -rng.randint(0, ov)
     # history fault: an earlier analysis of the same kind on other data / other flags in the same process
-    cfg["decoy"] = rng.random() < 0.2
+    # (the linear Kramers-Kronig kinds get more of them: their decoy is always the sibling spectrum, see _decoy)
+    cfg["decoy"] = rng.random() < (0.45 if kind in ("kk_ext", "kk_de", "lm") else 0.2)
     if wl.get("stochastic"):
         cfg["np_seed"] = 777  # conditional claim: pinned global RNG state
     swarm = rng.random()
@@ -119,6 +120,13 @@ def draw_config(rng, wl, tier):
                 cfg["faults"].append("F3")
         if swarm > 0.34 and wl.get("fail_sets") and rng.random() < 0.3:
             cfg["fail"] = rng.choice(wl["fail_sets"])
+            m_, w_ = wl["kwargs"]["method"], wl["kwargs"]["weight"]
+            dup = (isinstance(m_, list) and len(set(m_)) != len(m_)) or (isinstance(w_, list) and len(set(w_)) != len(w_))
+            if rng.random() < 0.4 and not dup:
+                # flaky instead of failing: only the first attempt of each chosen combination fails ("first" is counted
+                # per task on the pool path and per run on the serial path, which is the same thing only when every
+                # combination is one task - hence not for lists with repeated entries)
+                cfg["fail"] = [x + "@1" for x in cfg["fail"]]
     elif kind == "kk_cnls":
         T = wl["kwargs"].get("timeout", 60)
         cfg["dur_scale"] = T * rng.choice([0.005, 0.005, 0.2, 2.0]) if swarm > 0.34 else 0.005 * T
@@ -160,7 +168,7 @@ def _decoy(wl):
     w["data"] = dict(wl["data"])
     w["data"]["noise_seed"] = wl["data"].get("noise_seed", 0) + 1
     w["data"]["noise_pct"] = max(0.2, wl["data"].get("noise_pct", 0.0))
-    if wl["entry"] != "fit_circuit" and wl["data"].get("noise_seed", 0) % 2 == 0 and wl["data"]["n"] > 2:
+    if wl["entry"] != "fit_circuit" and (wl.get("kind") in ("kk_ext", "kk_de", "lm") or wl["data"].get("noise_seed", 0) % 2 == 0) and wl["data"]["n"] > 2:
         # a sibling spectrum: same number of points, same mask, same first and last frequency, other
         # interior frequencies (anything the library remembers under a key that does not tell the two apart)
         w["data"]["warp"] = 1.25
@@ -184,7 +192,7 @@ def _evaluate_after_decoy(args):
 
 def evaluate(wl, cfg, dec, ctx):
     kind = wl.get("kind")
-    if cfg.get("decoy") and ctx.extra.get("decoys", 0) < 2 and kind in ("fit", "zhit", "kk_cnls", "bht", "kk_ext", "kk_de", "lm", "mrq"):
+    if cfg.get("decoy") and ctx.extra.get("decoys", 0) < (3 if kind in ("kk_ext", "kk_de", "lm") else 2) and kind in ("fit", "zhit", "kk_cnls", "bht", "kk_ext", "kk_de", "lm", "mrq"):
         # history fault: own forked process (nothing it leaves behind reaches later runs) and an empty task
         # cache (results cached by earlier clean runs must not hide its effect); the reference is computed
         # first, in the clean job process
@@ -288,9 +296,25 @@ def prepare(wl, ctx, stats):
     try:
         np.random.seed(seed)
         a = pyimpspec.generate_mock_data(ident, noise=0.5, seed=seed)[0]
+        aZ, af = np.array(a.get_impedances(), copy=True), np.array(a.get_frequencies(), copy=True)
         np.random.seed(seed + 1)
         np.random.rand(17)
         pyimpspec.generate_mock_data("CIRCUIT_3", noise=1.0, seed=seed + 5)
+        # history: what the caller does with objects the library handed out (the circuits behind the mock
+        # definitions, the first data set) must not reach the next generation with the same seed
+        for circ in pyimpspec.generate_mock_circuits(ident):
+            for el in circ.get_elements(recursive=True):
+                vals = el.get_values()
+                for k, v in vals.items():
+                    if isinstance(v, float) and np.isfinite(v) and v != 0.0:
+                        try:
+                            el.set_values(k, v * 3.0)
+                        except Exception:
+                            pass
+                        break
+        a.subtract_impedances(np.full(a.get_num_points(masked=None), 5.0 + 0.0j))
+        a.set_mask({0: True})
+        stats["probes"]["mock_objects_scribbled"] += 1
         b = pyimpspec.generate_mock_data(ident, noise=0.5, seed=seed)[0]
         c = pyimpspec.generate_mock_data(ident, noise=0.5, seed=seed + 1)[0]
     except Exception as e:
@@ -318,9 +342,9 @@ def prepare(wl, ctx, stats):
                 break
     except Exception as e:
         stats["skipped"]["mock_data_batch_" + type(e).__name__] += 1
-    if not (np.array_equal(a.get_impedances(), b.get_impedances()) and np.array_equal(a.get_frequencies(), b.get_frequencies())):
-        add(f"generate_mock_data({ident!r}, noise=0.5, seed={seed}) is not bit-identical when repeated under another global RNG state")
-    if np.array_equal(a.get_impedances(), c.get_impedances()):
+    if not (np.array_equal(aZ, b.get_impedances()) and np.array_equal(af, b.get_frequencies())):
+        add(f"generate_mock_data({ident!r}, noise=0.5, seed={seed}) is not bit-identical when repeated under another global RNG state and after the caller changed the circuits returned by generate_mock_circuits({ident!r}) and the first data set in place")
+    if np.array_equal(aZ, c.get_impedances()):
         add(f"generate_mock_data({ident!r}) gives identical noise for seeds {seed} and {seed + 1}")
     return viols
 
